@@ -212,6 +212,20 @@ func TestPropSweep(t *testing.T) {
 	evid.SetExhaustive("sweep")
 }
 
+// FuzzEscape is the native fuzz target (thorough tier).
+func FuzzEscape(f *testing.F) {
+	for _, s := range append([]string{"<>\"'&", "\x00\x7f\xc2\x80", "\xed\xa0\x80", "\xf4\x90\x80\x80", "\xef\xbf\xbe", "a\xffb"}, dict...) {
+		f.Add(s)
+	}
+	f.Fuzz(func(t *testing.T, s string) {
+		c := Case{evid.BStr(s)}
+		if o := checkEscape(c); o.Violation != "" {
+			evid.Record("fuzz", c, o)
+			t.Fatalf("%s replay=%s", o.Violation, evid.SaveFailure("fuzz"))
+		}
+	})
+}
+
 func TestReplay(t *testing.T) {
-	evid.Replay(t, evid.R("escape", checkEscape), evid.R("sweep", checkEscape), evid.R("concat", checkConcat))
+	evid.Replay(t, evid.R("escape", checkEscape), evid.R("fuzz", checkEscape), evid.R("sweep", checkEscape), evid.R("concat", checkConcat))
 }
